@@ -240,6 +240,31 @@ class TheCheck(Check):
             self.expect[op] = ("ini", G.ini_expected(nodes, {}))
             ops.append(op)
         sts.append(Stream("ini-include-grammar", ops))
+        # formatted names / messages of every length around the block sizes of DYNAMIC_VSPRINTF, command
+        # outputs around the block sizes of qfile_read, documents of more than 2^16 lines
+        ops = []
+        for doc, ents in G.name_length_docs(rng, extra=20) + G.cmd_length_docs(big=(1048576, 1048577)):
+            op = G.ini_op(0x3d, doc, {})
+            self.expect[op] = ("ini", ents)
+            ops.append(op)
+        sts.append(Stream("ini-long-names-and-command-output", ops))
+        ops = []
+        for kind, total, pl, fl, dc, doc, table, errline in G.errmsg_cases(rng, full=not quick):
+            op = G.ac_op(fl, dc, doc, table, pathlen=pl)
+            ex = G.Expect()
+            ex.ret, ex.errline, ex.why = -1, errline, kind
+            if kind == "refused":
+                ex.events = [("M", G.OPTION, 1, 1, 0, [], [b"a", b"!fail"])]
+            self.expect[op] = ("ac", ex)
+            ops.append(op)
+        for fl, doc, table, ret, errline in G.line_count_cases():
+            op = G.ac_op(fl, 0, doc, table)
+            ex = G.Expect()
+            ex.ret, ex.errline, ex.why = ret, errline, "offence on the last line"
+            self.expect[op] = ("ac", ex)
+            ops.append(op)
+        sts.append(Stream("ac-message-lengths-and-line-numbers", ops,
+                          note="every error kind x message length around 1024 * 2^k; 65534..70001 lines"))
         from checks import mtpure
         sts.append(mtpure.stream(self))      # hidden shared state shows only with concurrent callers
         return sts
